@@ -280,6 +280,7 @@ void vb_invoke(rlbox_sandbox<SBX>& s)
 #else
   s.create_sandbox(); s.destroy_sandbox();
 #endif
+  { int vb_cnt = 0; auto vb_g = rlbox::detail::make_scope_exit([&] { vb_cnt++; }); auto vb_g2 = std::move(vb_g); vb_g2.release(); }
   rlbox_sandbox<SBX> vb_local_sandbox; (void)vb_local_sandbox.sandbox_storage;
   void* st = s.get_transition_state(); s.set_transition_state(st); (void)s.get_total_memory(); (void)s.get_memory_location(); (void)s.get_sandbox_impl();
   (void)s.is_pointer_in_app_memory(nullptr); (void)s.is_pointer_in_sandbox_memory(nullptr);
